@@ -6,8 +6,12 @@ VARIABLES shape, done
 gvars == <<shape, done>>
 Pick(S) == IF Sim THEN (IF S = {} THEN {} ELSE {RandomElement(S)}) ELSE S
 GInit == shape = <<>> /\ done = FALSE
+\* inside a move_or_destruct() hook the driver lets only the hooked object itself be destructed: regions that
+\* create and destruct helper objects are not nested below "mod" (they would fail by that rule, not by the raise)
+Helpers == {"clone", "move", "load", "mod"}
+Nestable == IF \E j \in 1 .. Len(shape) : shape[j] = "mod" THEN Regions \ Helpers ELSE Regions
 GNext == \/ /\ ~done /\ Len(shape) < MaxDepth
-            /\ \E r \in Pick(Regions) : shape' = Append(shape, r) /\ done' = FALSE
+            /\ \E r \in Pick(Nestable) : shape' = Append(shape, r) /\ done' = FALSE
          \/ /\ ~done /\ \E k \in Pick(Raises) : shape' = Append(shape, k) /\ done' = TRUE
          \/ done /\ UNCHANGED gvars
 GSpec == GInit /\ [][GNext]_gvars
